@@ -57,9 +57,15 @@ def load():
                            % (pydiffx.__file__, path))
 
     # generate_stats() logs parse errors; keep the check output clean.
-    logging.getLogger('pydiffx').setLevel(logging.CRITICAL)
     logging.getLogger('pydiffx').addHandler(logging.NullHandler())
     logging.getLogger('pydiffx').propagate = False
+
+    if os.environ.get('DXV_OCHECK_DEBUG_LOGGING'):
+        # the interpreter-flags checks: an application listening to
+        # everything the library has to say
+        logging.getLogger('pydiffx').setLevel(logging.DEBUG)
+    else:
+        logging.getLogger('pydiffx').setLevel(logging.CRITICAL)
 
     ns = _NS()
     ns.pydiffx = pydiffx
